@@ -1376,6 +1376,11 @@ class FileBuilder:
             elif isinstance(suboperation, ComplexOperation):
                 if (isinstance(suboperation, BuildFileOperation) and
                         os.path.isfile(suboperation.filename) and
+                        # If another thread has built (or is building) the
+                        # file, then the file is not ours to remove.
+                        # _new_cache.use_cached_operation raises below.
+                        not self._new_cache.has_norm_cased_file(
+                            os.path.normcase(suboperation.filename)) and
                         self._backups.back_up_and_remove(
                             suboperation.filename)):
                     # The cached build_file* call raised an exception. Had we
